@@ -4,6 +4,7 @@
 package core
 
 import (
+	"crypto/sha256"
 	"encoding/json"
 	"fmt"
 	"math/rand"
@@ -221,7 +222,8 @@ func (c *Ctx) Do(kind string, p Params, meta string) Obs {
 			c.Rep.Disagreements = append(c.Rep.Disagreements, Disagreement{Kind: kind, Params: p, Line: o.Line, Impl: o.Impl, Model: m, Meta: meta})
 		}
 	}
-	key := kind + "|" + o.Line + "|" + paramKey(p)
+	sum := sha256.Sum256([]byte(kind + "|" + o.Line + "|" + paramKey(p))) // (lines can be tens of kB: keep the digest only)
+	key := string(sum[:16])
 	if _, dup := c.seen[key]; !dup {
 		c.seen[key] = struct{}{}
 		triv := strings.HasPrefix(o.Impl, "err")
